@@ -813,6 +813,8 @@ impl Handler {
                 node = %request_call.contact(),
                 "Authentication response already sent. Dropping session.",
             );
+            // The request is no longer active, stop expecting a response for it.
+            self.remove_expected_response(src_address);
             self.fail_request(request_call, RequestError::InvalidRemotePacket, true)
                 .await;
             return;
@@ -840,6 +842,8 @@ impl Handler {
             Ok(v) => v,
             Err(e) => {
                 error!(error = ?e, "Could not generate a session");
+                // The request is no longer active, stop expecting a response for it.
+                self.remove_expected_response(src_address);
                 self.fail_request(request_call, RequestError::InvalidRemotePacket, true)
                     .await;
                 return;
@@ -1052,6 +1056,8 @@ impl Handler {
                         error = ?e,
                         "Invalid Authentication header. Dropping session",
                     );
+                    // The challenge has been consumed, stop expecting a response to it.
+                    self.remove_expected_response(node_address.socket_addr);
                     self.fail_session(&node_address, RequestError::InvalidRemotePacket, true)
                         .await;
                 }
